@@ -551,6 +551,8 @@ def _installed_family_table(chk, fx):
     paths = A.Interp(fx, hook=hook, crates=(AGENT,), max_paths=6000).explore(rn)
     fam = {}
     n_it = 0
+    order_dep = set()
+    carried_slots = {a[1] for p in paths if p.end == "iter-end" for a in p.assigns() if "RANGES:" in A.vstr(a[2])}
     for p in paths:
         if p.end != "iter-end":
             continue    # a pass over one child element that ran to its end (error exits store nothing)
@@ -562,6 +564,14 @@ def _installed_family_table(chk, fx):
             continue
         n_it += 1
         fam.setdefault(lits[0], set()).update(asg or {(None, "nothing")})
+        # a term is taken for its family whatever was read before it, except that its own slot must still be empty: Junos lists the
+        # terms in the order they were created (inet6 first for a policy that gained IPv4 later), and the agent must read back every
+        # state it installed.  A condition on the *other* family's slot makes the result depend on that order.
+        own = {a[0] for a in asg}
+        for k in p.assume:
+            for v in re.findall(r"«loop:(\w+)»", k):
+                if v not in own and v in carried_slots and asg:
+                    order_dep.add((lits[0], v))
     var = {}
     ok = True
     for lit_, afi in (("inet", "ip::Ipv4"), ("inet6", "ip::Ipv6")):
@@ -574,6 +584,9 @@ def _installed_family_table(chk, fx):
     shown = {k: sorted(v, key=str) for k, v in sorted(fam.items())}
     chk.instance("C01/R4", "installed term table: inet -> ipv4 = term.from as Ipv4 ranges, inet6 -> ipv6 = term.from as Ipv6 ranges (%s)" % shown, rn,
                  loc_of(rt.get("sp")), holds=ok, key="C01/R4 Maybe<Installed> family table")
+    chk.instance("C01/R4", "a term is accepted for its family independently of the other family's slot (terms may come in either order)", rn, loc_of(rt.get("sp")),
+                 holds=not order_dep, key="C01/R4 Maybe<Installed> term-order-dependent",
+                 detail=None if not order_dep else "accepting the %s term is conditioned on `%s`: a policy whose terms Junos lists in the other order cannot be read back" % sorted(order_dep)[0])
     chk.floor("C01/R4 paths over one <term> with a decided family", n_it, 2)
     # the collected sets end in the field of their family (absent family = empty set)
     n = 0
